@@ -50,12 +50,27 @@ class C14(Prop):
             sc["line"] = {"seed": st.sched.randrange(1 << 30), "prob": st.sched.choice([0.005, 0.02, 0.1])}
         return sc
 
+    @staticmethod
+    def hazard(sc):
+        """Does the scenario use a name that looks like a generated suffix (X:<k>)?  (known finding F-C13-1)"""
+        import re
+        def names(op):
+            for x in op:
+                if isinstance(x, str):
+                    yield x
+                elif isinstance(x, list):
+                    for y in names(x):
+                        yield y
+        return any(re.match(r"^.*:\d+$", n) for c in sc["clients"] for op in c["ops"] for n in names(op))
+
     def run_line_level(self, sc):
         """Each client edits its own LASFile on its own thread; the baton scheduler pre-empts at lasio source lines.
         Oracle: every client's own model/view checks hold after each of its operations (non-interference)."""
         res = Result()
         results = [Result() for _ in sc["clients"]]
         ms = [CurveMachine(c["init"], results[i], tag="c%d" % i) for i, c in enumerate(sc["clients"])]
+        for m in ms:
+            m.hazard_names = self.hazard(sc)
         ls = LineScheduler(sc["line"]["seed"], sc["line"]["prob"])
 
         def body(i):
@@ -85,6 +100,8 @@ class C14(Prop):
             return self.run_line_level(sc)
         res = Result()
         ms = [CurveMachine(c["init"], res, tag="c%d" % i) for i, c in enumerate(sc["clients"])]
+        for m in ms:
+            m.hazard_names = self.hazard(sc)
         pcs = [0] * len(ms)
         step = 0
         sched = list(sc["schedule"])
